@@ -285,6 +285,9 @@ def binop(ev, op, a, b, node, fr):
         return type(seq)(seq.items * max(n, 0))
     if isinstance(a, StrV) and isinstance(b, StrV) and isinstance(op, ast.Add):
         return StrV(a.s + b.s)
+    if isinstance(op, ast.Add) and (isinstance(a, StrV) and isinstance(b, Num) and b.tag == "token"
+                                    or isinstance(b, StrV) and isinstance(a, Num) and a.tag == "token"):
+        return b if isinstance(a, StrV) else a
     if isinstance(a, StrV) and isinstance(op, ast.Mod):
         return StrV("<fmt>")
     if isinstance(a, StrV) and isinstance(b, Num) and isinstance(op, ast.Mult):
@@ -376,10 +379,10 @@ def nd_binop(ev, op, a, b, node, fr):
         ev.unsupported("NdArr broadcasting between different shapes", node, fr)
     if isinstance(a, NdArr):
         if isinstance(b, Num) and b.shape and any((not s.is_number) or s != 1 for s in b.shape) and b.tag == "data":
-            return Num(F["Opq"](sp.Symbol("bcast_nd"), b.expr), kind="array", shape=b.shape, backend=b.backend)
+            return Num(F["Opq"](sp.Symbol("bcast_nd"), b.expr), kind="array", shape=b.shape, backend=b.backend, dtype=b.dtype, tag="data")
         return a.map(lambda x: binop(ev, op, x, b, node, fr))
     if isinstance(a, Num) and a.tag == "data":
-        return Num(F["Opq"](sp.Symbol("bcast_nd"), a.expr), kind="array", shape=a.shape, backend=a.backend)
+        return Num(F["Opq"](sp.Symbol("bcast_nd"), a.expr), kind="array", shape=a.shape, backend=a.backend, dtype=a.dtype, tag="data")
     return b.map(lambda y: binop(ev, op, a, y, node, fr))
 
 
@@ -706,10 +709,19 @@ def val_getattr(ev, obj, name, fr, node):
     ev.unsupported(f"attribute .{name} of {obj!r}", node, fr)
 
 
+REAL_OF = {"numpy.complex128": "numpy.float64", "numpy.complex64": "numpy.float32"}
+
+
+def real_dtype(dt):
+    if isinstance(dt, ExtV) and dt.dotted in REAL_OF:
+        return ExtV(REAL_OF[dt.dotted])
+    return dt
+
+
 def num_getattr(ev, obj: Num, name, fr, node):
     if name in ("real", "imag"):
         fn = sp.re if name == "real" else sp.im
-        return obj.like(fn(obj.expr), unit=obj.unit)
+        return obj.like(fn(obj.expr), unit=obj.unit, dtype=real_dtype(obj.dtype))
     if name == "shape":
         if obj.shape is None:
             if obj.kind in ("number", "quantity", "time") and obj.tag != "data":
@@ -923,6 +935,8 @@ def num_method(ev, x: Num, name, args, kwargs, fr, node):
                     raise Raised("TypeError", node, f"cannot cast {a} to {b} under casting='safe'")
                 if ok is True:
                     return x.like(x.expr, unit=x.unit, dtype=dt)
+        if x.dtype is None or (isinstance(x.dtype, ExtV) and x.dtype.dotted.endswith(":unknown")):
+            return x.like(x.expr, unit=x.unit, dtype=dt)      # source dtype not tracked: the safe cast is assumed to succeed
         ev.unsupported("astype(casting='safe') between dtypes the evaluator does not know", node, fr)
     if name == "to":
         u_ = unit_of(ev, args[0] if args else kwargs["unit"], node)
@@ -1226,7 +1240,7 @@ def _lazy(fn):
     return g
 
 
-def _np_unary(fn):
+def _np_unary(fn, real=False):
     def h(ev, args, kwargs, fr, node):
         x = args[0]
         if isinstance(x, NdArr):
@@ -1237,7 +1251,7 @@ def _np_unary(fn):
             ev.unsupported(f"numeric function of {x!r}", node, fr)
         if "dtype" in kwargs:
             ev.trace.append(("exp-dtype", norm(node) if node is not None else "", kwargs["dtype"]))
-        return x.like(fn(x.expr))
+        return x.like(fn(x.expr), dtype=real_dtype(x.dtype) if real else x.dtype)
     return h
 
 
@@ -1894,15 +1908,33 @@ def h_from_delayed(ev, args, kwargs, fr, node):
         ev.unsupported("from_delayed of a non-delayed value", node, fr)
     res = v.payload["result"]
     ev.trace.append(("from_delayed", res, kwargs.get("dtype"), kwargs.get("shape"), node))
+    nm = kwargs.get("name") or v.payload.get("delayed_kwargs", {}).get("name") or v.payload["kwargs"].get("dask_key_name")
+    if nm is not None and not isinstance(nm, NoneV):
+        ev.trace.append(("dask-name", nm, res, node))
     if isinstance(res, Num):
         return res.like(res.expr, backend="dask", unit=res.unit)
     return res
 
 
+DASK_ONLY_KW = {"dtype", "chunks", "drop_axis", "new_axis", "meta", "name", "token", "enforce_ndim", "concatenate", "align_arrays"}
+
+
 def h_map_blocks(ev, args, kwargs, fr, node):
     func, x = args[0], args[1]
-    res = ev.apply(func, [x] + list(args[2:]), {k: v for k, v in kwargs.items()}, fr, node)
+    fkw = {k: v for k, v in kwargs.items() if k not in DASK_ONLY_KW}
+    res = ev.apply(func, [x] + list(args[2:]), fkw, fr, node)
+    ev.trace.append(("map_blocks", res, {k: v for k, v in kwargs.items() if k in DASK_ONLY_KW}, node))
+    decl = kwargs.get("dtype")
+    if isinstance(res, Num):
+        res = res.like(res.expr, unit=res.unit, backend="dask", tag=res.tag, dtype=decl if isinstance(decl, ExtV) else res.dtype)
     return res
+
+
+def h_tokenize(ev, args, kwargs, fr, node):
+    exprs = []
+    for a in args:
+        exprs.append(a.expr if isinstance(a, Num) else sp.Symbol("tok_" + type(a).__name__ + "_" + str(getattr(a, "s", getattr(a, "dotted", "")))[:30]))
+    return Num(sp.Function("Token")(*exprs), kind="number", tag="token")
 
 
 def h_nullcontext(ev, args, kwargs, fr, node):
@@ -2002,11 +2034,11 @@ EXT = {
     "builtins.sorted": lambda ev, a, k, fr, n: ListV(sorted(ev.iterate(a[0], fr, n), key=lambda v: getattr(v, "s", str(v)))),
     "builtins.id": lambda ev, a, k, fr, n: Num(0), "builtins.hex": lambda ev, a, k, fr, n: StrV("0x0"),
     "builtins.round": h_round,
-    "numpy.exp": _np_unary(sp.exp), "numpy.sqrt": _np_unary(sp.sqrt), "numpy.abs": _np_unary(sp.Abs),
-    "numpy.absolute": _np_unary(sp.Abs), "numpy.floor": _np_unary(_lazy(sp.floor)), "numpy.ceil": _np_unary(_lazy(sp.ceiling)),
+    "numpy.exp": _np_unary(sp.exp), "numpy.sqrt": _np_unary(sp.sqrt), "numpy.abs": _np_unary(sp.Abs, real=True),
+    "numpy.absolute": _np_unary(sp.Abs, real=True), "numpy.floor": _np_unary(_lazy(sp.floor)), "numpy.ceil": _np_unary(_lazy(sp.ceiling)),
     "math.ceil": _np_unary(_lazy(sp.ceiling)), "math.floor": _np_unary(_lazy(sp.floor)), "math.sqrt": _np_unary(sp.sqrt),
     "numpy.conj": _np_unary(sp.conjugate), "numpy.conjugate": _np_unary(sp.conjugate),
-    "numpy.real": _np_unary(sp.re), "numpy.imag": _np_unary(sp.im), "numpy.sin": _np_unary(sp.sin),
+    "numpy.real": _np_unary(sp.re, real=True), "numpy.imag": _np_unary(sp.im, real=True), "numpy.sin": _np_unary(sp.sin),
     "numpy.cos": _np_unary(sp.cos), "numpy.square": _np_unary(lambda x: x ** 2), "numpy.sign": _np_unary(sp.sign),
     "numpy.round": h_round, "numpy.rint": h_round, "numpy.around": h_round,
     "numpy.min": _minmax(sp.Min), "numpy.max": _minmax(sp.Max), "numpy.amin": _minmax(sp.Min),
@@ -2025,7 +2057,7 @@ EXT = {
     "numpy.fft.fftshift": _shift_like("FFTSHIFT"), "numpy.fft.ifftshift": _shift_like("IFFTSHIFT"),
     "astropy.time.Time": h_time, "astropy.time.Time.isclose": h_isclose_time,
     "astropy.units.isclose": h_isclose_q, "astropy.units.allclose": h_isclose_q,
-    "dask.delayed": h_delayed, "dask.array.from_delayed": h_from_delayed, "dask.array.map_blocks": h_map_blocks,
+    "dask.delayed": h_delayed, "dask.base.tokenize": h_tokenize, "dask.tokenize": h_tokenize, "dask.array.from_delayed": h_from_delayed, "dask.array.map_blocks": h_map_blocks,
     "contextlib.nullcontext": h_nullcontext, "baseband.open": h_baseband_open,
     "functools.wraps": lambda ev, a, k, fr, n: OpaqueV("decorator"),
     "functools.singledispatch": lambda ev, a, k, fr, n: a[0],
